@@ -51,15 +51,15 @@ func c11Indices(n int) []c11Index {
 func c11Containers(tier string) []c11Container {
 	maxLen := 3
 	if tier == "thorough" {
-		maxLen = 5
+		maxLen = 7
 	}
 	var out []c11Container
 	chars := [][]string{
-		{"a", "b", "c", "d", "e"},
-		{"é", "b", "ü", "d", "ö"},
-		{"🌍", "a", "👋", "é", "x"},
-		{"é", "a", "́", "z", "か"}, // combining marks are code points of their own
-		{"€", "\\t", "\\\"", " ", "\\\\"},
+		{"a", "b", "c", "d", "e", "f", "g"},
+		{"é", "b", "ü", "d", "ö", "ß", "ñ"},
+		{"🌍", "a", "👋", "é", "x", "🎉", "か"},
+		{"é", "a", "́", "z", "か", "̈", "y"}, // combining marks are code points of their own
+		{"€", "\\t", "\\\"", " ", "\\\\", "\\n", "'"},
 	}
 	for n := 0; n <= maxLen; n++ {
 		// arrays of num, string, nested arrays, []any
@@ -112,7 +112,7 @@ func init() {
 	core.Register(&core.Check{
 		ID:    "C11",
 		Level: "exploration",
-		Rule: "exhaustive grid: containers (arrays of num/string/nested/any and strings over ASCII, 2-, 3-, 4-byte characters, combining marks) of length 0..3 (quick) / 0..5 (thorough) x access forms x every index in [-n-2, n+2] plus fractional, huge, NaN, +-Inf, -0 x (for slices) all ordered pairs and missing bounds; one tiny program per access; " +
+		Rule: "exhaustive grid: containers (arrays of num/string/nested/any and strings over ASCII, 2-, 3-, 4-byte characters, combining marks) of length 0..3 (quick) / 0..7 (thorough) x access forms x every index in [-n-2, n+2] plus fractional, huge, NaN, +-Inf, -0 x (for slices) all ordered pairs and missing bounds; one tiny program per access; " +
 			"distinct = distinct (container, form, index/bounds) triples; non-trivial = all of them (each is its own execution)",
 		Assumptions: []string{
 			"an index of magnitude >= 2^63 may panic as 'out of bounds' or as 'not an integer' (the law does not say which; Go's float-to-int conversion is unspecified there)",
